@@ -153,6 +153,17 @@ def run(ctx, B):
             ZZ, LL, EE = domains.product(np.array([Z]), lsel, Ep)
             r = X.call("CS_FluorLine", ZZ, LL, EE); rb = X.call("CSb_FluorLine", ZZ, LL, EE)
             ctx.add(evaluations=2 * len(ZZ))
+            # the same tuples as one sequence with the LINE varying fastest (consecutive calls share Z and E): the value of a tuple must not depend on the
+            # order of the batch - a shell cross section cached across the lines of one (Z, E), or left behind by a failing call, shows here
+            perm = np.lexsort((LL, EE))
+            for fnx, rx in (("CS_FluorLine", r), ("CSb_FluorLine", rb)):
+                r2 = X.call(fnx, ZZ[perm], LL[perm], EE[perm]); ctx.add(evaluations=len(perm))
+                dif = np.nonzero((r2["v0"].view(np.uint64) != rx["v0"][perm].view(np.uint64)) | ((r2["flags"] & F_ERR) != (rx["flags"][perm] & F_ERR)))[0]
+                for j in dif[:3]:
+                    ctx.violation("%s|%s|Z=%d|order-dependent" % (cfg, fnx, Z), "%s(%d,%d,%r) = %r (err=%s) when the energies vary fastest but %r (err=%s) right after %s(%d,%d,%r)" % (
+                        fnx, Z, int(LL[perm][j]), float(EE[perm][j]), float(rx["v0"][perm][j]), bool(rx["flags"][perm][j] & F_ERR), float(r2["v0"][j]), bool(r2["flags"][j] & F_ERR),
+                        fnx, Z, int(LL[perm][j - 1]), float(EE[perm][j - 1])),
+                        dict(cfg=cfg, calls=[dict(fn=fnx, args=[Z, int(LL[perm][i]), float(EE[perm][i])]) for i in range(max(0, j - 3), j + 1)]))
             got = r["v0"].reshape(len(lsel), len(Ep)); gerr = ((r["flags"] & F_ERR) != 0).reshape(len(lsel), len(Ep))
             gb = rb["v0"].reshape(len(lsel), len(Ep)); gberr = ((rb["flags"] & F_ERR) != 0).reshape(len(lsel), len(Ep))
             lbrates = {m: float(val(X.call("RadRate", [Z], [mac[m + "_LINE"]]))[0]) for m in LB}
